@@ -33,7 +33,8 @@ def norm_parsed(p, kind):
         return {"ok": False, "name": "", "unique": False, "cols": []}
     if kind == "table":
         return {"ok": True, "wr": p["wr"],
-                "cols": [{k: c[k] for k in ("name", "pk", "pkdesc", "autoinc", "unique", "notnull", "collate", "hasdefault", "ncheck", "references")} for c in p["cols"]],
+                "cols": [dict({k: c[k] for k in ("name", "pk", "pkdesc", "autoinc", "unique", "notnull", "collate", "hasdefault", "ncheck", "references")},
+                              defaultval=str(c.get("default", ""))) for c in p["cols"]],
                 "tcons": [{"k": t["k"], "cols": [{"name": c["name"], "coll": c["coll"], "desc": c["desc"]} for c in t["cols"]]} for t in p["tcons"]]}
     return {"ok": True, "name": p["name"], "unique": p["unique"], "cols": [{"name": c["name"], "coll": c["coll"], "desc": c["desc"]} for c in p["cols"]]}
 
